@@ -25,7 +25,7 @@ fn classes(vals: &[&Val]) -> String {
 
 /// class used in signatures: a listed root cause when the pair exhibits it, else the kinds
 fn root_cause_class(a: &Val, b: &Val) -> String {
-    if gv::differ_in_bool_vs_number(a, b) {
+    if gv::differ_in_bool_vs_number(a, b) || gv::has_bool_number_key_clash(a) || gv::has_bool_number_key_clash(b) {
         "bool_vs_number".to_string()
     } else if cfg!(feature = "alt") && gv::differ_in_map_order(a, b) {
         "map_insertion_order".to_string()
@@ -187,7 +187,8 @@ impl Part for TemplateAgreement {
 
     fn check(p: &Pair) -> Verdict {
         let mut out = Verdict::pass(p.a.repr_name() != p.b.repr_name());
-        if p.a.contains_nan() || p.b.contains_nan() {
+        // invalid values cannot be handed to a template (the look-up reports their error)
+        if p.a.contains_nan() || p.b.contains_nan() || p.a.contains_invalid() || p.b.contains_invalid() {
             return Verdict::pass(false);
         }
         let env = Environment::new();
